@@ -311,6 +311,12 @@ Fixpoint patch_files (yours diff : list (bytes * bytes)) : result (list (bytes *
       Ok ((name, t) :: rest)
   end.
 
+(* Protocol.diff: for filename, their_text in theirs: patch = make_patch(yours.get(filename, ''), their_text, filename, ctx)
+   with make_patch (difflib) as an oracle *)
+Definition diff_files (make_patch : bytes -> bytes -> bytes -> bytes) (yours theirs : list (bytes * bytes))
+  : list (bytes * bytes) :=
+  map (fun nt => (fst nt, make_patch (fst nt) (lookup (fst nt) yours) (snd nt))) theirs.
+
 (* ---------------------------------------------------------------------------------- *)
 (* executable interface for the correspondence cases                                     *)
 (* ---------------------------------------------------------------------------------- *)
@@ -333,3 +339,31 @@ Definition patch_case (c : list (bytes * bytes) * list (bytes * bytes)) : result
 
 Definition mkh (g : list bytes) (b : list (tag * bytes)) : hunk := {| gap := g; body := b |}.
 Definition mks (hs : list hunk) (t : list bytes) : script := {| hunks := hs; tail := t |}.
+
+(* compact byte-string literals for the generated cases: consecutive pieces of at most 256 bytes, each
+   written as the number int.from_bytes(piece + b'\x01', 'little') (hex positive literal). Decoding is a
+   bit walk; [Base.Bytes.hx] costs a division per byte. *)
+Definition mkbyte (l : list bool) : byte :=
+  match l with
+  | [b7; b6; b5; b4; b3; b2; b1; b0] => Byte.of_bits (b0, (b1, (b2, (b3, (b4, (b5, (b6, b7)))))))
+  | _ => x00
+  end.
+Fixpoint bop (p : positive) (cur : list bool) (k : nat) : bytes :=
+  match p with
+  | xH => []
+  | xO q => match k with 7 => mkbyte (false :: cur) :: bop q [] 0 | _ => bop q (false :: cur) (S k) end
+  | xI q => match k with 7 => mkbyte (true :: cur) :: bop q [] 0 | _ => bop q (true :: cur) (S k) end
+  end.
+Definition bp (l : list positive) : bytes := List.concat (map (fun p => bop p [] 0) l).
+
+(* one generated case of any of the three streams, with the implementation's answer *)
+Inductive dcase :=
+| DApply (src patch : bytes) (rv : bool) (expect : result bytes)
+| DScript (a b patch : bytes) (hdr : list bytes) (s : script)
+| DProto (yours diff : list (bytes * bytes)) (expect : result (list (bytes * bytes))).
+Definition dcheck (c : dcase) : bool :=
+  match c with
+  | DApply src patch rv x => rbytes_eqb (apply_patch src patch rv) x
+  | DScript a b patch hdr s => check_script (a, b, patch, hdr, s)
+  | DProto y d x => files_eqb (patch_files y d) x
+  end.
